@@ -75,3 +75,52 @@ V_ASSIGNS(g.tick_reads, g.sys_msgs, g.sys_sender, g.sys_kind, g.sys_ctx_started,
 V_ENSURES(V_RET == this && g.tick_reads == V_OLD(g.tick_reads) + 1 && g.sys_tick == V_OLD(g.sys_tick) + 1 && g.sys_msgs == V_OLD(g.sys_msgs) + 1 && __CPROVER_pointer_equals(g.sys_sender, NULL))  /*@C19.one-tick-notification-per-timer-expiry*/
 ;
 #endif
+
+#ifdef V_DRIVER_UNIT
+/* The two drivers of a loop: m_ctx_loop_events() (blocking) and m_ctx_dispatch() (one non-blocking step per call).  Their three building blocks are proved
+ * in units ctx.loop_start / ctx.recv_events / ctx.loop_stop; here they are ghost-counted callees, and recv_events may change quit / quit code / running count at will. */
+V_CONTRACT
+static int loop_start(m_ctx_t *c, int max_events)
+V_REQUIRES(c == g_ctx && g_ctx->state == M_CTX_IDLE && g.loopstop_calls == 0 && g.recvdrv_calls == 0)
+V_ASSIGNS(g.loopstart_calls, g.loopstart_max, g_ctx->state, g_ctx->quit, g_ctx->quit_code, g_ctx->stats.running_modules)
+V_ENSURES(V_RET == g_loopstart_ret && g.loopstart_calls == V_OLD(g.loopstart_calls) + 1 && g.loopstart_max == max_events && g_ctx->state == (g_loopstart_ret == 0 ? M_CTX_LOOPING : M_CTX_IDLE))
+;
+V_CONTRACT
+static uint8_t loop_stop(m_ctx_t *c)
+V_REQUIRES(c == g_ctx && g_ctx->state == M_CTX_LOOPING)
+V_ASSIGNS(g.loopstop_calls, g.loopstop_cond, g_ctx->state)
+V_ENSURES(V_RET == g_ctx->quit_code && g.loopstop_calls == V_OLD(g.loopstop_calls) + 1 && g.loopstop_cond == (g_ctx->quit || g_ctx->stats.running_modules == 0) && g_ctx->state == M_CTX_IDLE)
+;
+V_CONTRACT
+static int recv_events(m_ctx_t *c, int timeout)
+V_REQUIRES(c == g_ctx && g_ctx->state == M_CTX_LOOPING && g.loopstop_calls == 0)
+V_REQUIRES(!g_ctx->quit && g_ctx->stats.running_modules > 0)                                                            /*@C03.no-polling-once-quit-was-requested-or-nothing-runs*/
+V_ASSIGNS(g.recvdrv_calls, g.recvdrv_timeout, g_ctx->quit, g_ctx->quit_code, g_ctx->stats.running_modules)
+V_ENSURES(V_RET == g_recvdrv_ret && g.recvdrv_calls == V_OLD(g.recvdrv_calls) + 1 && g.recvdrv_timeout == timeout)
+;
+V_CONTRACT
+static int m_ctx_loop_events(m_ctx_t *c, int max_events)
+V_REQUIRES(v_base_ok() && c == g_ctx && V_RW_OK(g_ctx, sizeof(m_ctx_t)) && g.loopstart_calls == 0 && g.loopstop_calls == 0 && g.recvdrv_calls == 0)
+V_ASSIGNS(g.loopstart_calls, g.loopstart_max, g.loopstop_calls, g.loopstop_cond, g.recvdrv_calls, g.recvdrv_timeout, g_ctx->state, g_ctx->quit, g_ctx->quit_code, g_ctx->stats.running_modules)
+V_ENSURES(V_IMP(max_events <= 0 || V_OLD(g_ctx->state) != M_CTX_IDLE, V_RET == -EINVAL && g.loopstart_calls == 0 && g.loopstop_calls == 0 && g.recvdrv_calls == 0 && g_ctx->state == V_OLD(g_ctx->state)))
+V_ENSURES(V_IMP(max_events > 0 && V_OLD(g_ctx->state) == M_CTX_IDLE && g_loopstart_ret != 0, V_RET == g_loopstart_ret && g.loopstart_calls == 1 && g.loopstop_calls == 0 && g.recvdrv_calls == 0))
+/* a started loop returns only through loop_stop(), exactly once, and only when a quit was requested or no module is RUNNING any more; it returns what loop_stop()
+ * returns (the requested code); every wait is a blocking one */
+V_ENSURES(V_IMP(max_events > 0 && V_OLD(g_ctx->state) == M_CTX_IDLE && g_loopstart_ret == 0,
+                g.loopstart_calls == 1 && g.loopstart_max == max_events && g.loopstop_calls == 1 && g.loopstop_cond && V_RET == (int)g_ctx->quit_code && g_ctx->state == M_CTX_IDLE
+                && (g.recvdrv_calls == 0 || g.recvdrv_timeout == -1)))                                                  /*@C03.loop-returns-only-on-quit-or-when-no-module-is-running*/
+;
+V_CONTRACT
+int m_ctx_dispatch(void)
+V_REQUIRES(v_base_ok() && (g_mctx == NULL || (g_mctx == g_ctx && V_RW_OK(g_ctx, sizeof(m_ctx_t)))) && g.loopstart_calls == 0 && g.loopstop_calls == 0 && g.recvdrv_calls == 0)
+V_ASSIGNS(g_mctx != NULL: g.loopstart_calls, g.loopstart_max, g.loopstop_calls, g.loopstop_cond, g.recvdrv_calls, g.recvdrv_timeout, g_ctx->state, g_ctx->quit, g_ctx->quit_code, g_ctx->stats.running_modules)
+V_ENSURES(V_IMP(g_mctx == NULL, V_RET == -EPIPE))
+/* the same three steps as the blocking loop, one per call: first call starts, a call after quit (or when nothing runs) stops and returns the code, any other call
+ * delivers what is ready without blocking */
+V_ENSURES(V_IMP(g_mctx != NULL && V_OLD(g_ctx->state) == M_CTX_IDLE, g.loopstart_calls == 1 && g.loopstop_calls == 0 && g.recvdrv_calls == 0 && V_RET == g_loopstart_ret))   /*@C03.dispatch-first-call-starts*/
+V_ENSURES(V_IMP(g_mctx != NULL && V_OLD(g_ctx->state) == M_CTX_LOOPING && (V_OLD(g_ctx->quit) || V_OLD(g_ctx->stats.running_modules) == 0),
+                g.loopstop_calls == 1 && g.loopstart_calls == 0 && g.recvdrv_calls == 0 && V_RET == (int)V_OLD(g_ctx->quit_code)))                                         /*@C03.dispatch-call-after-quit-stops-and-returns-the-code*/
+V_ENSURES(V_IMP(g_mctx != NULL && V_OLD(g_ctx->state) == M_CTX_LOOPING && !V_OLD(g_ctx->quit) && V_OLD(g_ctx->stats.running_modules) > 0,
+                g.recvdrv_calls == 1 && g.recvdrv_timeout == 0 && g.loopstop_calls == 0 && g.loopstart_calls == 0 && V_RET == g_recvdrv_ret))                               /*@C03.dispatch-delivers-without-blocking*/
+;
+#endif
